@@ -250,25 +250,42 @@ def gains_bounded_instance():
         emb = rng.normal(size=(F, N, 4))
         ce = np.exp(rng.uniform(np.log(lo), np.log(hi), size=(F, N, 1)))
         init = np.moveaxis(rng.dirichlet(np.ones(K), size=(F, N)), -1, -2).copy()
+        # every weight-tying option of the mixture trainers; every memory layout of the caller's tensors (C order, Fortran order, the
+        # transposed view of a (D, T, F) STFT, a strided slice)
+        wca = [(-1,), (-3,), (-3, -1), (-1,)][(inp['seed'] // 5) % 4]
+        kw = {'weight_constant_axis': wca}
+        layout = ['C', 'T', 'F', 'strided'][(inp['seed'] // 3) % 4]
+
+        def relayout(a):
+            if layout == 'F':
+                return np.asfortranarray(a)
+            if layout == 'T':
+                return np.ascontiguousarray(a.transpose(2, 1, 0)).transpose(2, 1, 0)
+            if layout == 'strided':
+                big = np.zeros(a.shape[:-1] + (2 * a.shape[-1],), dtype=a.dtype)
+                big[..., ::2] = a
+                return big[..., ::2]
+            return a
 
         def run(yy, ee):
+            yy, ee = relayout(yy), relayout(ee)
             if which in ('cacgmm', 'cacgmm-ll'):
-                m = CACGMMTrainer().fit(yy, initialization=init, iterations=it)
+                m = CACGMMTrainer().fit(yy, initialization=init, iterations=it, **kw)
                 return [m.predict(yy), np.asarray(m.log_likelihood(yy)), m.weight, m.cacg.covariance_eigenvalues, m.cacg.covariance]
             if which == 'cwmm':
-                m = mk(CWMMTrainer).fit(yy, initialization=init, iterations=it)
+                m = mk(CWMMTrainer).fit(yy, initialization=init, iterations=it, **kw)
                 return [m.predict(yy), m.weight, np.asarray(m.complex_watson.concentration)]
             if which == 'cwmm-fit_predict':
-                return [mk(CWMMTrainer).fit_predict(yy, initialization=init, iterations=it)]
+                return [mk(CWMMTrainer).fit_predict(yy, initialization=init, iterations=it, **kw)]
             if which == 'cbmm':
-                m = mk(CBMMTrainer).fit(yy[:1, :8], initialization=init[:1, :, :8], iterations=1)
-                return [m.predict(yy[:1, :8]), m.weight]
+                m = mk(CBMMTrainer).fit(yy[:, :8], initialization=init[:, :, :8], iterations=1)
+                return [m.predict(yy[:, :8]), m.weight]
             if which == 'vmfmm':
-                m = VMFMMTrainer().fit(yy, initialization=init, iterations=it)
+                m = VMFMMTrainer().fit(yy, initialization=init, iterations=it, **kw)
                 return [m.predict(yy), m.weight, m.vmf.mean, np.asarray(m.vmf.concentration)]
             if which in ('gcacgmm', 'vmfcacgmm'):
                 cls = GCACGMMTrainer if which == 'gcacgmm' else VMFCACGMMTrainer
-                m = cls().fit(yy, ee if which == 'vmfcacgmm' else emb, initialization=init, iterations=it)
+                m = cls().fit(yy, ee if which == 'vmfcacgmm' else emb, initialization=init, iterations=it, **kw)
                 return [m.predict(yy, ee if which == 'vmfcacgmm' else emb), m.cacg.covariance_eigenvalues]
             if which == 'cacg':
                 m = ComplexAngularCentralGaussianTrainer().fit(yy, iterations=it)
